@@ -3,6 +3,7 @@ import Comdex.Lemmas.Accrual
 import Comdex.Lemmas.AccrualErr
 import Comdex.Lemmas.VaultAccrual
 import Comdex.Lemmas.LockerAccrual
+import Comdex.Lemmas.LendAccrual
 /-!
 # C18 — Interest and savings accrual is non-negative, monotone and zero over zero time
 
@@ -65,6 +66,12 @@ Property clause → theorem
   switch-on and accrual in one block)                                     → `zero_rate_window_earns_nothing`
 * more frequent triggering cannot earn more, also across a rate change   → `locker_more_frequent_triggering_not_more`,
                                                                             `accrual_subadditive_across_rate_change`
+(e) the clocks of the x/lend positions (`Model/LendAccrual.lean`: own `LastInteractionTime` and index copy, stored by every handler after
+    `IterateBorrow` / `IterateLends`; no rate stamp — the open interval is accrued at the rate of the moment of the interaction)
+* every interaction restarts the clock: a second accrual in the same block charges nothing whatever the rates have become
+                                                                          → `lend_interaction_restarts_clock`, `lend_reward_interaction_restarts_clock`
+* two interactions (stored index + clock in between) ≤ one + 4·10⁻¹⁸ per unit of principal, interest and reserve share
+                                                                          → `borrow_two_interactions_not_more`
 -/
 namespace Comdex.C18
 open Comdex Comdex.LendRates
@@ -676,6 +683,95 @@ theorem zero_rate_window_touched_counterexample :
 
 end locker
 
+/-! # part e: the time stamps of the x/lend positions (state level)
+
+A lend / borrow position carries its own clock (`LastInteractionTime`) and its own copy of the index (`GlobalIndex`,
+`ReserveGlobalIndex`); every handler stores `(index returned, now)` after `IterateLends` / `IterateBorrow` (`AccB.after`,
+`AccL.after` of `Model/LendAccrual.lean`, the accrual model of C08). There is NO rate stamp: the rate applied to the open interval
+`[LastInteractionTime, now]` is the rate computed at `now` (utilisation and parameters of that moment, `StableBorrowRate` after
+`ReBalanceStableRates`) — a rate change is never "settled at the old rate"; what holds is stated here. -/
+section lendState
+open Comdex.Lend
+
+/-- **Every interaction restarts the position's clock, whatever happens to the rates afterwards**: after a handler stored the
+result of `IterateBorrow` at `now`, another accrual in the same block — at ANY borrow rate `apr'` and reserve rate `rr'` (the rate
+may have been changed in between by governance, by a utilisation move or by `ReBalanceStableRates`) — charges nothing and leaves
+the indices: the span already accrued never counts again (no double accrual), and zero time yields zero whatever the rate. -/
+theorem lend_interaction_restarts_clock (a : AccB) (r : BorrowAccrual) (now n : Int) (stable : Bool) (apr' rr' : Dec)
+    (hgi : 0 < r.gi) (hrgi : 0 < r.rgi) (hn : 0 ≤ n) (hsr : 0 ≤ a.stableRate) :
+    accrueBorrow (a.after r now) n stable apr' (some rr') now = { ext := .val 0 0, gi := r.gi, rgi := r.rgi } := by
+  have h0 : elapsed now (a.after r now).last = 0 := by
+    show (if now = 0 then 0 else now - now) = 0
+    split <;> simp
+  exact accrueBorrow_zero_elapsed (a.after r now) n stable apr' rr' now hgi hrgi hn hsr h0
+
+/-- **Two interactions never charge more than one** (variable-rate borrow, same rates): interest and reserve share of an accrual
+at `t1` followed — from the stored index and clock — by one at `t2` exceed those of the single accrual at `t2` by at most
+`4·10⁻¹⁸` per unit of principal each. -/
+theorem borrow_two_interactions_not_more (a : AccB) (n : Int) (apr rr : Dec) (t1 t2 : Int)
+    (hl : a.last ≠ 0) (h1 : a.last ≤ t1) (h10 : t1 ≠ 0) (h12 : t1 ≤ t2)
+    (hgi : Dec.one ≤ a.gi) (hrgi : Dec.one ≤ a.rgi) (hn : 0 ≤ n) (hapr : 0 ≤ apr) (hrr : 0 ≤ rr) :
+    ∃ dI1 dR1 dI2 dR2 dI dR g1 rg1 g2 rg2 g rg,
+      accrueBorrow a n false apr (some rr) t1 = { ext := .val dI1 dR1, gi := g1, rgi := rg1 } ∧
+      accrueBorrow (a.after { ext := .val dI1 dR1, gi := g1, rgi := rg1 } t1) n false apr (some rr) t2
+        = { ext := .val dI2 dR2, gi := g2, rgi := rg2 } ∧
+      accrueBorrow a n false apr (some rr) t2 = { ext := .val dI dR, gi := g, rgi := rg } ∧
+      dI1 + dI2 ≤ dI + 4 * n ∧ dR1 + dR2 ≤ dR + 4 * n := by
+  have one_pos : (0 : Int) < Dec.one := by decide
+  have pgi : 0 < a.gi := lt_of_lt_of_le one_pos hgi
+  have prgi : 0 < a.rgi := lt_of_lt_of_le one_pos hrgi
+  have s1 : 0 ≤ t1 - a.last := by omega
+  have s2 : 0 ≤ t2 - t1 := by omega
+  have g1ge : Dec.one ≤ indexNext apr a.gi (t1 - a.last) := le_trans hgi (indexNext_ge apr a.gi _ hapr pgi s1)
+  have rg1ge : Dec.one ≤ indexNext rr a.rgi (t1 - a.last) := le_trans hrgi (indexNext_ge rr a.rgi _ hrr prgi s1)
+  have e1 : elapsed t1 a.last = t1 - a.last := by unfold elapsed; simp [hl]
+  have e2 : elapsed t2 t1 = t2 - t1 := by unfold elapsed; simp [h10]
+  have e3 : elapsed t2 a.last = (t1 - a.last) + (t2 - t1) := by unfold elapsed; simp [hl]
+  have b1 : borrowInterest n apr rr a.gi a.rgi t1 a.last
+      = .ok [indexInterest n apr a.gi (t1 - a.last), indexNext apr a.gi (t1 - a.last),
+             indexInterest n rr a.rgi (t1 - a.last), indexNext rr a.rgi (t1 - a.last)] := by
+    unfold borrowInterest
+    simp [e1, not_lt.mpr s1, Int.ne_of_gt pgi, Int.ne_of_gt prgi]
+  have b2 : borrowInterest n apr rr (indexNext apr a.gi (t1 - a.last)) (indexNext rr a.rgi (t1 - a.last)) t2 t1
+      = .ok [indexInterest n apr (indexNext apr a.gi (t1 - a.last)) (t2 - t1), indexNext apr (indexNext apr a.gi (t1 - a.last)) (t2 - t1),
+             indexInterest n rr (indexNext rr a.rgi (t1 - a.last)) (t2 - t1), indexNext rr (indexNext rr a.rgi (t1 - a.last)) (t2 - t1)] := by
+    unfold borrowInterest
+    simp [e2, not_lt.mpr s2, Int.ne_of_gt (lt_of_lt_of_le one_pos g1ge), Int.ne_of_gt (lt_of_lt_of_le one_pos rg1ge)]
+  have b3 : borrowInterest n apr rr a.gi a.rgi t2 a.last
+      = .ok [indexInterest n apr a.gi ((t1 - a.last) + (t2 - t1)), indexNext apr a.gi ((t1 - a.last) + (t2 - t1)),
+             indexInterest n rr a.rgi ((t1 - a.last) + (t2 - t1)), indexNext rr a.rgi ((t1 - a.last) + (t2 - t1))] := by
+    unfold borrowInterest
+    simp [e3, Int.ne_of_gt pgi, Int.ne_of_gt prgi]
+    omega
+  refine ⟨indexInterest n apr a.gi (t1 - a.last), indexInterest n rr a.rgi (t1 - a.last),
+    indexInterest n apr (indexNext apr a.gi (t1 - a.last)) (t2 - t1), indexInterest n rr (indexNext rr a.rgi (t1 - a.last)) (t2 - t1),
+    indexInterest n apr a.gi ((t1 - a.last) + (t2 - t1)), indexInterest n rr a.rgi ((t1 - a.last) + (t2 - t1)),
+    indexNext apr a.gi (t1 - a.last), indexNext rr a.rgi (t1 - a.last),
+    indexNext apr (indexNext apr a.gi (t1 - a.last)) (t2 - t1), indexNext rr (indexNext rr a.rgi (t1 - a.last)) (t2 - t1),
+    indexNext apr a.gi ((t1 - a.last) + (t2 - t1)), indexNext rr a.rgi ((t1 - a.last) + (t2 - t1)), ?_, ?_, ?_,
+    two_step_le_one_step_plus_rounding n apr a.gi _ a.gi _ _ hn hapr hgi g1ge hgi s1 s2,
+    two_step_le_one_step_plus_rounding n rr a.rgi _ a.rgi _ _ hn hrr hrgi rg1ge hrgi s1 s2⟩
+  · unfold accrueBorrow; simp [b1]
+  · unfold accrueBorrow AccB.after; simp [b2]
+  · unfold accrueBorrow; simp [b3]
+
+/-- the same for a lend position (`IterateLends`): after the handler stored `(index, now)`, a second reward calculation in the
+same block accrues nothing into the tracker whatever the lend rate has become. -/
+theorem lend_reward_interaction_restarts_clock (a : AccL) (r : LendAccrual) (now n : Int) (apr' : Dec)
+    (hgi : 0 < r.gi) (hn : 0 ≤ n) (hapr : 0 ≤ apr') :
+    lendReward n apr' (a.after r now).gi now (a.after r now).last = .ok [0, r.gi] := by
+  have h0 : elapsed now now = 0 := by unfold elapsed; split <;> simp
+  show lendReward n apr' r.gi now now = _
+  unfold lendReward
+  simp only [h0, Int.lt_irrefl, if_false, Int.ne_of_gt hgi]
+  have z := (reward_zero_at_zero_time n apr' r.gi hn hapr hgi).1
+  have f1 : factor1 apr' 0 = Dec.one := by
+    unfold factor1; rw [years_zero, mul_zero' _ hapr]; simp
+  have ix : indexNext apr' r.gi 0 = r.gi := by unfold indexNext; rw [f1]; exact mul_one' _ (le_of_lt hgi)
+  rw [z, ix]
+
+end lendState
+
 /-! ## non-vacuity: the hypotheses of the theorems are satisfiable on ordinary values -/
 section examples
 open Comdex.Accrual
@@ -787,5 +883,21 @@ example :
   decide +kernel
 
 end lockerExamples
+/-! non-vacuity for part e (lend positions): 5 % variable borrow of 10⁹ from index 1.0, half a year and another half year -/
+section lendExamples
+open Comdex.Lend
+example : accrueBorrow ⟨1, 1000000000000000000, 1000000000000000000, 1700000000, 0⟩ 1000000000 false 50000000000000000
+    (some 10000000000000000) (1700000000 + 15778800)
+    = { ext := .val 25000000000000000000000000 5000000000000000000000000, gi := 1025000000000000000, rgi := 1005000000000000000 } := by
+  decide
+/-- hypotheses of `borrow_two_interactions_not_more` -/
+example : (1700000000 : Int) ≠ 0 ∧ (1700000000 : Int) ≤ 1715778800 ∧ (1715778800 : Int) ≤ 1731557600 ∧
+    Dec.one ≤ (1000000000000000000 : Dec) := by decide
+/-- the second accrual of the same block charges nothing, also at a rate that has meanwhile jumped to 300 % -/
+example : accrueBorrow (AccB.after ⟨1, 1000000000000000000, 1000000000000000000, 1700000000, 0⟩
+      { ext := .val 25000000000000000000000000 5000000000000000000000000, gi := 1025000000000000000, rgi := 1005000000000000000 }
+      1715778800) 1000000000 false 3000000000000000000 (some 10000000000000000) 1715778800
+    = { ext := .val 0 0, gi := 1025000000000000000, rgi := 1005000000000000000 } := by decide
+end lendExamples
 
 end Comdex.C18
